@@ -299,3 +299,39 @@ Proof.
   intros c. apply clean_final. exact HU.
 Qed.
 End Main.
+
+Lemma c10_ascii_under_notrunc : forall A cfg, NvNoTrunc A -> C10_ascii_statement A cfg.
+Proof. intros A cfg HN d deny hy dns b r Hb Hv H. exact (to_ascii_output A cfg d deny hy dns b r HN Hb Hv H). Qed.
+
+(* ---- the premise NvNoTrunc cannot be dropped: a normalize_validate that returns a proper prefix ---- *)
+(* uts46.rs compares the normalised text with the decoded Punycode text by zip (no length check), so an
+   adapter whose normalize_validate truncates makes to_ascii accept (and return, borrowed) a label whose
+   decoded text has a denied ASCII character beyond the compared prefix. *)
+Definition trunc1 : adapter :=
+  {| map_normalize := fun l => l; normalize_validate := fun l => firstn 1 l;
+     joining_type := fun _ => 0; bidi_class := toy_bc;
+     is_mark := fun _ => false; is_virama := fun _ => false |}.
+Definition W_C10_trunc : list N := [120; 110; 45; 45; 95; 45; 57; 102; 97].   (* xn--_-9fa, decodes to U+00E9 '_' *)
+
+Lemma w_c10_trunc :
+  to_ascii trunc1 true W_C10_trunc DENY_STD3 HAllow DVerify = Ok (true, W_C10_trunc) /\
+  deny_member DENY_STD3 95 = true /\
+  to_ascii toy true W_C10_trunc DENY_STD3 HAllow DVerify = Err.
+Proof. vm_compute. repeat split; reflexivity. Qed.
+
+Lemma c10_ascii_unconditional_refuted : exists A cfg, ~ C10_ascii_statement A cfg.
+Proof.
+  exists trunc1, true. intros H.
+  assert (Hb : bytes W_C10_trunc) by (unfold W_C10_trunc; repeat constructor; unfold is_byte; lia).
+  assert (Hv : valid_deny DENY_STD3) by (left; reflexivity).
+  specialize (H W_C10_trunc DENY_STD3 HAllow DVerify true W_C10_trunc Hb Hv (proj1 w_c10_trunc)).
+  rewrite Forall_forall in H.
+  assert (Hin : In 95 W_C10_trunc) by (unfold W_C10_trunc; cbn [In]; tauto).
+  destruct (H 95 Hin) as (_ & _ & Hm). rewrite (proj1 (proj2 w_c10_trunc)) in Hm. discriminate.
+Qed.
+
+Lemma toy_notrunc : NvNoTrunc toy.
+Proof.
+  intros l t H. cbn [toy normalize_validate] in H. apply (f_equal (@List.length N)) in H.
+  rewrite app_length in H. destruct t; [reflexivity|]. cbn [List.length] in H. lia.
+Qed.
